@@ -59,24 +59,31 @@ impl RcvdPacketQueue {
         self.one_rtt.close();
     }
 
+    /// Hands a received packet to the connection's queue of its packet type.
+    ///
+    /// This is called from the receive loop of an interface, which serves every connection bound to it:
+    /// it must not wait for one connection to drain a full queue. Packets whose keys are not available
+    /// yet stay queued (e.g. 1-RTT packets that overtake the end of the handshake); if that queue were
+    /// waited for, the Handshake packets that would make the keys available could never be delivered.
+    /// A packet that finds its queue full is dropped, as it would be by a full socket buffer.
     pub async fn deliver(&self, packet: Packet, way: Way) {
         match packet {
             Packet::Data(packet) => match packet.header {
                 DataHeader::Long(long::DataHeader::Initial(header)) => {
                     let packet = CipherPacket::new(header, packet.bytes, packet.offset);
-                    _ = self.initial.send((packet, way)).await;
+                    _ = self.initial.try_send((packet, way));
                 }
                 DataHeader::Long(long::DataHeader::Handshake(header)) => {
                     let packet = CipherPacket::new(header, packet.bytes, packet.offset);
-                    _ = self.handshake.send((packet, way)).await;
+                    _ = self.handshake.try_send((packet, way));
                 }
                 DataHeader::Long(long::DataHeader::ZeroRtt(header)) => {
                     let packet = CipherPacket::new(header, packet.bytes, packet.offset);
-                    _ = self.zero_rtt.send((packet, way)).await;
+                    _ = self.zero_rtt.try_send((packet, way));
                 }
                 DataHeader::Short(header) => {
                     let packet = CipherPacket::new(header, packet.bytes, packet.offset);
-                    _ = self.one_rtt.send((packet, way)).await;
+                    _ = self.one_rtt.try_send((packet, way));
                 }
             },
             Packet::VN(_vn) => {}
